@@ -80,7 +80,7 @@ def canon(abi, name):
 
 
 CTX_SHAPES = ["plain-leaf", "syscall-only", "calls", "no-function",
-              "calls-in-other-block"]
+              "calls-in-other-block", "leaf-gets-a-call-in-an-earlier-run"]
 
 
 def gen_case(rng, tier, index):
@@ -92,6 +92,11 @@ def gen_case(rng, tier, index):
                                        rng.randrange(0, 3)),
                 "flags": rng.random() < 0.5, "align": rng.random() < 0.4,
                 "scratch": rng.choice([0, 0, 1]),
+                # how the patch object is made: subclass, from_function with
+                # explicit constraints (which win over a decorator's), or
+                # from_function relying on the decorator
+                "make": rng.choice(["subclass", "explicit-over-decorator",
+                                    "decorator"]),
                 "seed": rng.randrange(1 << 30)}
     abi = rng.choice(list(ABIS))
     pool = POOL[abi]
@@ -173,6 +178,8 @@ def run_ctx(c):
             blk(1, ["f2"], [{"k": "call", "t": "g"}]),
             blk(3, ["f1"], [{"k": "ret"}])],
         "no-function": [blk(0, ["f"], [{"k": "nop"}, {"k": "ret"}])],
+        "leaf-gets-a-call-in-an-earlier-run": [
+            blk(0, ["f"], [{"k": "nop"}, {"k": "ret"}])],
     }[shape]
     blocks = blocks + [blk(9, ["g"], [{"k": "ret"}])]
     fblocks = [b["id"] for b in blocks if b["id"] != 9]
@@ -185,25 +192,60 @@ def run_ctx(c):
                       "ivs": [{"gap": 0, "blocks": blocks}]}]}
     bu, lst = irbuild.build(case, random.Random("uuid:0"))
     m = bu.module
-    before = len(bu.intervals[0][0].contents)
-    marker = vocab.asm_text("x64", "mark", imm=0x5A5A01)
-
-    class P(Patch):
-        def __init__(self):
-            super().__init__(Constraints(
-                clobbers_flags=c["flags"],
+    from gtirb_rewriting import Pass, PassManager
+    from gtirb_rewriting.patch import patch_constraints
+    # the body overwrites every register it declared clobbered
+    body = "nop\n" + "".join(f"movq $1, %{r}\n" for r in c["clobbers"])
+    cons = dict(clobbers_flags=c["flags"],
                 clobbers_registers=set(c["clobbers"]),
-                scratch_registers=c["scratch"], align_stack=c["align"]))
+                scratch_registers=c["scratch"], align_stack=c["align"])
+    make = c.get("make", "subclass")
+    if make == "subclass":
+        class P(Patch):
+            def __init__(self):
+                super().__init__(Constraints(**cons))
 
-        def get_asm(self, ctx):
-            return marker + "\n"
-    functions = gtirb_functions.Function.build_functions(m)
-    ctx = RewritingContext(m, functions)
-    ctx.insert_at(bu.blocks[0], 0, P())
-    ctx.apply()
+            def get_asm(self, ctx):
+                return body
+        patch = P()
+    elif make == "decorator":
+        @patch_constraints(**cons)
+        def fn(ctx):
+            return body
+        patch = Patch.from_function(fn)
+    else:
+        # the decorator says something else; the explicit argument counts
+        @patch_constraints(clobbers_registers={"rbx"})
+        def fn(ctx):
+            return body
+        patch = Patch.from_function(fn, Constraints(**cons))
+
+    class Reg(Pass):
+        def __init__(self, what):
+            self.what = what
+
+        def begin_module(self, module, functions, ctx):
+            if self.what == "call":
+                ctx.insert_at(bu.blocks[0], 1, Patch.from_function(
+                    lambda _ctx: "callq g\n", Constraints()))
+            else:
+                ctx.insert_at(bu.blocks[0], 0, patch)
+    if shape == "leaf-gets-a-call-in-an-earlier-run":
+        # first seen as a leaf: stays protected in later runs of the manager
+        pm = PassManager()
+        step = Reg("call")
+        pm.add(step)
+        pm.run(bu.ir)
+        step.what = "patch"
+    else:
+        pm = PassManager()
+        pm.add(Reg("patch"))
+    before = len(bu.intervals[0][0].contents)
+    pm.run(bu.ir)
     bi = bu.intervals[0][0]
     ins = bytes(bi.contents)[:len(bi.contents) - before]
-    may_be_leaf = shape in ("plain-leaf", "syscall-only", "no-function")
+    may_be_leaf = shape in ("plain-leaf", "syscall-only", "no-function",
+                            "leaf-gets-a-call-in-an-earlier-run")
     rng = random.Random(c["seed"])
     names = [canon("x64-elf", r) for r in ALLREGS["x64-elf"]] + ["rbp"]
     for res in (0, 8):
@@ -223,6 +265,11 @@ def run_ctx(c):
         if mc.sp != sp0:
             viol.append({"key": "context:sp-not-restored",
                          "msg": f"{mc.sp - sp0:+d}"})
+        for n in names:
+            if mc.regs[n] != init[n]:
+                viol.append({"key": f"context:register-not-restored:{make}",
+                             "msg": n})
+                break
     ctr["context_insertions"] = 1
     pushes = bool(c["clobbers"] or c["flags"] or c["align"] or c["scratch"])
     return {"sig": f"ctx:{shape}:{len(c['clobbers'])}{int(c['flags'])}"
